@@ -94,7 +94,67 @@ def sites(tree):
                 isinstance(n.value.op, ast.Mult):
             out.append(('neg', k, lambda m: setattr(m.value, 'right', ast.UnaryOp(
                 op=ast.USub(), operand=m.value.right))))
+        # ---- sixth session: operators a person's slip produces
+        if isinstance(n, ast.Slice) and n.step is None:
+            lo, hi = n.lower, n.upper
+            one = lambda e: isinstance(e, ast.Constant) and e.value == 1
+            m1 = lambda e: isinstance(e, ast.UnaryOp) and isinstance(e.op, ast.USub) and \
+                one(e.operand)
+            if one(lo) and hi is None:        # [1:] -> [:-1]
+                out.append(('slice', k, lambda m: (setattr(m, 'lower', None), setattr(
+                    m, 'upper', ast.UnaryOp(op=ast.USub(), operand=ast.Constant(1))))))
+            elif lo is None and m1(hi):       # [:-1] -> [1:]
+                out.append(('slice', k, lambda m: (setattr(m, 'upper', None), setattr(
+                    m, 'lower', ast.Constant(1)))))
+            elif lo is not None and hi is not None:   # [a:b] -> [a:b + 1]
+                out.append(('slice', k, lambda m: setattr(m, 'upper', ast.BinOp(
+                    left=m.upper, op=ast.Add(), right=ast.Constant(1)))))
+            elif lo is None and hi is not None and not m1(hi):   # [:b] -> [:b - 1]
+                out.append(('slice', k, lambda m: setattr(m, 'upper', ast.BinOp(
+                    left=m.upper, op=ast.Sub(), right=ast.Constant(1)))))
+        if isinstance(n, ast.Call) and isinstance(n.func, ast.Attribute) and \
+                n.func.attr == 'copy' and not n.args and not n.keywords:
+            out.append(('copydrop', k, 'REPLACE_WITH_RECEIVER'))
+        if isinstance(n, ast.Call) and n.keywords:
+            for j in range(len(n.keywords)):
+                if n.keywords[j].arg is not None:
+                    out.append(('kwdrop', k, lambda m, j=j: m.keywords.pop(j)))
+        if isinstance(n, (ast.AugAssign, ast.Expr)) and not (
+                isinstance(n, ast.Expr) and isinstance(n.value, ast.Constant)):
+            out.append(('delstmt', k, 'REPLACE_WITH_PASS'))
+        if isinstance(n, ast.Assign) and len(n.targets) == 1 and \
+                isinstance(n.targets[0], (ast.Subscript, ast.Attribute)):
+            out.append(('delstmt', k, 'REPLACE_WITH_PASS'))
+        if isinstance(n, ast.Compare) and len(n.ops) == 1 and \
+                type(n.ops[0]) in (ast.Lt, ast.LtE, ast.Gt, ast.GtE):
+            fl = {ast.Lt: ast.Gt, ast.LtE: ast.GtE, ast.Gt: ast.Lt, ast.GtE: ast.LtE}
+            out.append(('cmpflip', k, lambda m, fl=fl: setattr(m, 'ops', [fl[type(m.ops[0])]()])))
+        if isinstance(n, ast.BoolOp):
+            sw2 = {ast.And: ast.Or, ast.Or: ast.And}
+            out.append(('boolop', k, lambda m, sw2=sw2: setattr(m, 'op', sw2[type(m.op)]())))
+        if isinstance(n, ast.If) and not n.orelse and len(n.body) == 1 and \
+                isinstance(n.body[0], (ast.Raise,)):
+            pass    # validation only
+        elif isinstance(n, ast.If):
+            out.append(('ifnot', k, lambda m: setattr(m, 'test', ast.UnaryOp(
+                op=ast.Not(), operand=m.test))))
+    kinds = os.environ.get('SURVEY_KINDS')
+    if kinds:
+        out = [o for o in out if o[0] in kinds.split(',')]
     return out
+
+
+class _Repl(ast.NodeTransformer):
+    def __init__(self, target, how):
+        self.target, self.how = target, how
+
+    def visit(self, node):
+        if node is self.target:
+            if self.how == 'REPLACE_WITH_PASS':
+                return ast.Pass()
+            if self.how == 'REPLACE_WITH_RECEIVER':
+                return node.func.value
+        return self.generic_visit(node)
 
 
 def make_mutants(fn):
@@ -106,7 +166,10 @@ def make_mutants(fn):
         t2 = copy.deepcopy(tree)
         node = list(ast.walk(t2))[k]
         try:
-            mut(node)
+            if isinstance(mut, str):
+                t2 = _Repl(node, mut).visit(t2)
+            else:
+                mut(node)
             new = ast.unparse(ast.fix_missing_locations(t2))
         except Exception:
             continue
